@@ -64,8 +64,12 @@ def rule_constructor(ctx):
             return
         atom = [a for a, pol in p.guards if shape_atom(a)][0]
         sides = (atom[2], atom[3])
-        ok_sides = any(T.contains(x, ('attr', SELF, 'axes')) or T.contains(x, ('attr', SELF, '_axes')) for x in sides) and \
-            any(x in (('attr', ('attr', SELF, 'values'), 'shape'), ('attr', ('attr', SELF, '_values'), 'shape'), ('attr', SELF, 'shape')) for x in sides)
+        # (the stored objects, also under the local names they were stored from: self._values = values makes `values.shape` the shape of the stored data)
+        st_vals = [e.c for e in p.events if e.kind == 'store_attr' and e.a == SELF and e.b == '_values']
+        st_axes = [e.c for e in p.events if e.kind == 'store_attr' and e.a == SELF and e.b == '_axes']
+        axes_terms = [('attr', SELF, 'axes'), ('attr', SELF, '_axes')] + st_axes[-1:]
+        shape_terms = [('attr', ('attr', SELF, 'values'), 'shape'), ('attr', ('attr', SELF, '_values'), 'shape'), ('attr', SELF, 'shape')] + [('attr', v, 'shape') for v in st_vals[-1:]]
+        ok_sides = any(any(T.contains(x, t) for t in axes_terms) for x in sides) and any(x in shape_terms for x in sides)
         if not ok_sides:
             ctx.violated('R1', fi, T.show(atom)[:150], 'the consistency test must compare the sizes of the *stored* axes with the shape of the *stored* values',
                          node=p.node)
@@ -530,7 +534,7 @@ def rule_label_list_dispatch(ctx, rid='R7'):
     AXES_P = P_('axes')
     seen = 0
     for p in ret_paths(ev):
-        if not any(alt[0] == 'call' and (T.dotted(alt[1]) or '') == 'Axes.from_arrays' for alt in T.strip_phi(p.value)):
+        if not any(alt[0] == 'call' and (T.dotted(alt[1]) or '') == 'Axes.from_arrays' for alt in T.value_alts(p.value)):
             continue
         g = [(a, pol) for a, pol in p.guards if a[0] == 'call' and T.dotted(a[1]) in ('np.all', 'all') and pol is True]
         if not g:
@@ -641,7 +645,7 @@ def rule_forms(ctx):
     for p in ret_paths(ev):
         v = p.value
         good = False
-        for alt in T.strip_phi(v):
+        for alt in T.value_alts(v):
             if alt[0] == 'call':
                 d = T.dotted(alt[1]) or ''
                 if d in ('Axes', 'Axes.from_shape', 'Axes.from_arrays', 'Axes.from_dict'):
